@@ -16,25 +16,31 @@ Rec == ndJsonDeserialize(IOEnv.TRACE)
 
 VARIABLES l,      \* position in Rec
           fam, cfg, st, seq,
-          viol, devs
+          viol, devs,   \* line numbers of violations / <<line, finding id>> of explained deviations (the first Keep of each)
+          nviol, ndev   \* how many there were in all
 
-TInit == l = 1 /\ fam = "none" /\ cfg = 0 /\ st = 0 /\ seq = 0 /\ viol = <<>> /\ devs = <<>>
+Keep == 60
+Ids == {"FX02a", "FX02b", "FX02c", "FX02d", "FX02e", "FX02f", "FX02g", "FX02h"}
+TInit == /\ l = 1 /\ fam = "none" /\ cfg = 0 /\ st = 0 /\ seq = 0 /\ viol = <<>> /\ devs = <<>>
+         /\ nviol = 0 /\ ndev = [i \in Ids |-> 0]
+Flag(bad, ln) == /\ viol' = IF bad /\ nviol < Keep THEN Append(viol, ln) ELSE viol
+                 /\ nviol' = IF bad THEN nviol + 1 ELSE nviol
+Note(id)  == /\ devs' = IF id # "" /\ ndev[id] < Keep THEN Append(devs, <<l, id>>) ELSE devs
+             /\ ndev' = IF id # "" THEN [ndev EXCEPT ![id] = @ + 1] ELSE ndev
 
 Step ==
   /\ l <= Len(Rec)
   /\ LET e == Rec[l] IN
      IF e.op = "new" THEN
-        /\ viol' = IF OpenAtEnd(fam, st) THEN Append(viol, l) ELSE viol
+        /\ Flag(OpenAtEnd(fam, st), l - 1) /\ Note("")
         /\ fam' = e.fam /\ cfg' = e.cfg /\ st' = St0(e.fam, e.cfg) /\ seq' = 0
-        /\ UNCHANGED devs
      ELSE IF e.op = "hang" THEN       \* the call never returned: the run ends here
-        /\ viol' = Append(viol, l)
-        /\ st' = St0(fam, cfg) /\ UNCHANGED <<fam, cfg, seq, devs>>
+        /\ Flag(TRUE, l) /\ Note("")
+        /\ st' = St0(fam, cfg) /\ UNCHANGED <<fam, cfg, seq>>
      ELSE
         LET v    == Judge(fam, cfg, st, e)
             good == v.ok /\ e.seq = seq + 1
-        IN /\ viol' = IF good THEN viol ELSE Append(viol, l)
-           /\ devs' = IF good /\ v.dev # "" THEN Append(devs, <<l, v.dev>>) ELSE devs
+        IN /\ Flag(~good, l) /\ Note(IF good THEN v.dev ELSE "")
            /\ st' = v.st /\ seq' = e.seq
            /\ UNCHANGED <<fam, cfg>>
   /\ l' = l + 1
@@ -43,5 +49,8 @@ TNext == Step
 Done == (l = Len(Rec) + 1) =>
   PrintT(<<"VERDICT", ToJson([events |-> Len(Rec),
                               violations |-> IF OpenAtEnd(fam, st) THEN Append(viol, Len(Rec)) ELSE viol,
-                              deviations |-> devs])>>)
+                              deviations |-> devs, nviol |-> nviol + (IF OpenAtEnd(fam, st) THEN 1 ELSE 0),
+                              n_FX02a |-> ndev["FX02a"], n_FX02b |-> ndev["FX02b"], n_FX02c |-> ndev["FX02c"],
+                              n_FX02d |-> ndev["FX02d"], n_FX02e |-> ndev["FX02e"], n_FX02f |-> ndev["FX02f"],
+                              n_FX02g |-> ndev["FX02g"], n_FX02h |-> ndev["FX02h"]])>>)
 =============================================================================
